@@ -92,11 +92,11 @@ def rule_emit(m, rep, rid='R1', counters=False):
 
 
 # ------------------------------------------------------------------ C08-R2 one consumer
-def rule_one_consumer(m, rep, rid='R2'):
+def rule_one_consumer(m, rep, rid='R2', parts=('receiver', 'callers')):
     cad = m.cad
     offenders = []
     n = 0
-    for b in cad.all_bodies:
+    for b in (cad.all_bodies if 'receiver' in parts else []):
         if not b.file.endswith('queuing.rs'):
             continue
         n += 1
@@ -122,8 +122,11 @@ def rule_one_consumer(m, rep, rid='R2'):
                                 if 'Debug' in (b.impl_trait or '') or blk['cleanup']:
                                     continue
                                 offenders.append((b, bi, 'access to .%s' % m.f_receiver))
-    rep.floor(rid, 'bodies in queuing.rs', n, 30)
-    if offenders:
+    if 'receiver' in parts:
+        rep.floor(rid, 'bodies in queuing.rs', n, 30)
+    if 'receiver' not in parts:
+        pass
+    elif offenders:
         for b, bi, k in offenders:
             rep.bad(rid, 'receiver-used-only-by-run/%s' % b.short(), b.where(bi),
                     'the worker queue is consumed/inspected outside the worker loop (%s): a second consumer breaks order' % k)
@@ -280,8 +283,11 @@ def rule_loop(m, rep, rid='R3', drained=False):
 
 
 # ------------------------------------------------------------------ C08-R4 / C16-R1 : the task closure
-def rule_task_closure(m, rep, rid='R4', handler=False):
+def rule_task_closure(m, rep, rid='R4', handler=False, parts=None):
     b = m.task_closure
+    if parts == ('unit',):
+        rep.ob(rid, 'task-returns-unit', b.locals[0] == '()', b.where(), 'the task closure returns (): neither the emit result nor an error can leave the worker thread')
+        return
     T = Terms(b)
     emits = [bi for bi, t in b.calls() if not b.blocks[bi]['cleanup'] and callee_is(t, SINK_TRAIT + '::emit')]
     others = [bi for bi, t in b.calls() if not b.blocks[bi]['cleanup'] and
@@ -414,7 +420,7 @@ def rule_same_channel(m, rep, rid='R6'):
 
 
 # ------------------------------------------------------------------ C10-R3 capacity plumbing (+ builder frame)
-def rule_capacity(m, rep, rid='R3'):
+def rule_capacity(m, rep, rid='R3', frame=False):
     cad = m.cad
     news = cad.method(m.worker, 'new')
     b = one(rep, rid, 'worker constructor', news)
@@ -447,8 +453,7 @@ def rule_capacity(m, rep, rid='R3'):
     rep.ob(rid, 'build-passes-capacity', okb, m.build.where(wn[0]) if wn else m.build.where(),
            'build() passes self.capacity to the worker' if okb else 'build() does not pass the configured capacity unchanged')
     # builder setters: each changes exactly its field
-    rule_builder_frame(cad, rep, QB, {'with_capacity': ('capacity', 'some-param'), 'with_error_handler': ('error_handler', 'some-box')},
-                       rid='builder')
+    rule_builder_frame(cad, rep, QB, {'with_capacity': ('capacity', 'some-param')}, rid='builder', value_only=not frame)
     # public constructors
     for name, want in (('with_capacity', True), ('from', False)):
         bs = cad.method(Q, name)
@@ -498,7 +503,7 @@ def _field_value(t, name):
         return None
 
 
-def rule_builder_frame(cad, rep, adt, setters, rid='builder'):
+def rule_builder_frame(cad, rep, adt, setters, rid='builder', value_only=False):
     """Every `with_X(mut self, ..) -> Self` returns self with exactly field X replaced."""
     fields = [f['name'] for f in adt_fields(cad, adt)]
     short = adt.rsplit('::', 1)[-1]
@@ -535,6 +540,13 @@ def rule_builder_frame(cad, rep, adt, setters, rid='builder'):
                     okshape = False
                     break
         exp = setters.get(b.name)
+        if value_only:
+            if exp is None:
+                continue
+            v = vals.get(exp[0])
+            okv = v is not None and v[0] == 'adt' and v[2] == 'Some' and dict(v[3])['0'] == ('param', 2)
+            rep.ob(rid, '%s::%s/value' % (short, b.name), okv, b.where(), 'stores Some(param) into `%s`' % exp[0] if okv else '%s does not store Some(argument) into `%s`' % (b.name, exp[0]))
+            continue
         if not okshape:
             rep.bad(rid, '%s::%s/frame' % (short, b.name), b.where(), 'setter returns %s: cannot see that the other fields are kept' % [fmt(r)[:160] for r in rts])
             continue
